@@ -22,6 +22,7 @@ RULE = (
     "the same oracle. Non-trivial iff >= 3 tempo events and (a hint > 0 was exercised, or a body "
     "contains an event whose tick precedes its predecessor's across a tempo change); distinct = "
     "distinct case."
+    " part dense: sorted charts with a text, a section and a lyric event, a note, a phrase and a track event on EVERY (step-th) tick of a window of 60..1200 ticks around / behind the last tempo changes, two thirds of them over round 'musical' tempo maps where many ticks have an exact time of k + 1/2 microseconds; every stored time equals the un-hinted query."
 )
 ASSUMPTIONS = [
     "negative hints are outside the quantifier (0..len) and not generated",
